@@ -493,6 +493,9 @@ def check_C11(ctx):
         mixes = [s for s in scen if '/mix/' in s['id']]
         keep = set(x['id'] for x in mixes[ctx.seed % 3::3])
         scen = [s for s in scen if '/mix/' not in s['id'] or s['id'] in keep]
+    # the same trace from several goroutines of a library user at the protocol entry points (Paris / relaxed included, sequence numbers not pinned)
+    same = vt.tlc_generate(ctx, 'GenWire', 'C11', 0)
+    scen += same[ctx.seed % 2::2] if ctx.quick() else same
     wire_family(ctx, 'C11', scen, RUN_RULE % 'C11All (a request with 3 runs + e2e probes; mixes of concurrent requests of different protocols to one target; '
                 'allocator bases at wrap-around; reply interleavings; concurrent allocator callers)' +
                 '; the oracle is: every reported run equals the design prediction for ONE wire run (its result alone); non-trivial = more than one flow on the wire',
